@@ -536,7 +536,16 @@ DynArray* dyn_array_push_struct(DynArray* arr, const void* struct_ptr, size_t st
     assert(arr->elem_size == struct_size && "DynArray: Struct size mismatch");
     
     if (arr->length >= arr->capacity) {
+        /* The pushed struct may be an element of this very array ('(array_push xs (at xs 0))' passes
+         * a pointer into the storage): growing may move the storage, so follow it */
+        const uint8_t *old_data = (const uint8_t*)arr->data;
+        const uint8_t *src = (const uint8_t*)struct_ptr;
+        bool inside = old_data && src >= old_data && src < old_data + (size_t)arr->length * arr->elem_size;
+        size_t offset = inside ? (size_t)(src - old_data) : 0;
         dyn_array_grow(arr);
+        if (inside) {
+            struct_ptr = (const uint8_t*)arr->data + offset;
+        }
     }
     
     /* Copy struct into array */
